@@ -109,3 +109,11 @@ def audit(modules, theorems, timeout=1200):
         else:
             res[t] = {"ok": False, "axioms": [], "error": "no axiom report (missing or failed): " + flat[:300]}
     return res
+
+
+def leanchecker(modules, timeout=3000):
+    """Lean's independent re-checker of compiled .olean files; returns (rc, output, seconds)"""
+    t0 = time.time()
+    with Lock():
+        p = subprocess.run(["lake", "env", "leanchecker"] + list(modules), cwd=LEAN, capture_output=True, text=True, timeout=timeout)
+    return p.returncode, p.stdout + p.stderr, time.time() - t0
